@@ -19,6 +19,15 @@ def _alt_algorithms():
         except Exception: pass
     return [a for a in out if a.islower()][:2]
 KMS = KMS + [(a, {}) for a in _alt_algorithms()]
+def _spelled_algorithms():
+    """other spellings that hashlib.new accepts here (OpenSSL's own names: upper case, dashes, digest size appended): a user may
+    name the algorithm as the `openssl` tool does, and several guaranteed names are prefixes of these"""
+    out = []
+    for a in ('sha512-256', 'SHA512-224', 'MD5-SHA1', 'SHA256', 'SHA3-256', 'BLAKE2b512', 'SHAKE-128'):
+        try: hashlib.new(a, b'x').hexdigest(); out.append(a)
+        except Exception: pass
+    return out
+KMS = KMS + [(a, {}) for a in _spelled_algorithms()]
 VALS = ['1', '2.5', "'a'", 'None', '(1, 2)', '-7', "'x y'", '0.1', '[1, 2]', 'True', '10**12', "'z'", "'L' * 250"]
 VALS2 = [v for v in VALS if v not in ('[1, 2]', "'L' * 250")]        # (a 250-character argument makes keys no file name can hold)
 SEEDS = ['0', '1', '4242', 'random']
@@ -120,6 +129,8 @@ def explore(prop, tier, off=0):
             # a pickling archive - the markers must come back as the same objects in the later session
             if i % 6 == 0: func, km, ign = 'f1', ('raw', {}), ['y']
             if i % 6 == 3: func, km, ign = 'f1', ('raw', {'sentinel': True}), [0]
+            # fixed stratum: a non-flat text keymap on a function called with several keywords (the later session spells them in another order)
+            if i % 6 == 1: func, km, ign = 'f2', (['string', 'pickle'][(i // 6) % 2], {'flat': False}), []
             calls = [gen_call(r, func, VALS2) for _ in range(6)]
             # (unhashable arguments make a safe decorator evaluate directly every time: not a key-stability matter)
             calls = [dict(args=[a for a in c['args'] if a != '[1, 2]'] or ["'u'"], kw=[(n, v) for n, v in c['kw'] if v != '[1, 2]']) if func == 'f1' else c for c in calls]
